@@ -498,7 +498,8 @@ def gen_c10_loop(rng: random.Random, tier: str) -> Dict[str, Any]:
     return {"engine": "bufsim", "prop": "C10", "mode": "loop", "n_step": rng.choice([2, 3, 3, 4]), "gamma": rng.choice([0.99, 0.9, 0.5]), "num_envs": rng.choice([1, 2, 3, 4]),
             "capacity": rng.choice([16, 32, 64]), "pop": rng.choice([1, 2, 3]), "gens": rng.choice([1, 2]), "per": rng.random() < 0.4, "len_seed": rng.randrange(1000),
             "max_len": rng.choice([1, 2, 3, 5, 9]), "ending": rng.choice(["term", "trunc", "mixed"]), "learn_step": rng.choice([1, 2, 5]), "seed": rng.getrandbits(31),
-            "ops": [{"op": "train"}]}
+            # the documented `n_step` flag may be left at its default while an n-step memory is passed: storing and sampling depend on the memory only
+            "n_step_flag": rng.random() < 0.6, "ops": [{"op": "train"}]}
 
 
 def run_c10_loop(ctx: kernel.Ctx, case: Dict[str, Any]) -> None:
@@ -529,7 +530,7 @@ def run_c10_loop(ctx: kernel.Ctx, case: Dict[str, Any]) -> None:
     top.time = tr.clock
     try:
         with instrumented(tr, [type(pop[0])]), contextlib.redirect_stdout(_io.StringIO()), contextlib.redirect_stderr(_io.StringIO()):
-            top.train_off_policy(env, "script", "Rainbow DQN", pop, memory, max_steps=max_steps, evo_steps=evo_steps, eval_steps=2, eval_loop=1, n_step=True, per=case["per"],
+            top.train_off_policy(env, "script", "Rainbow DQN", pop, memory, max_steps=max_steps, evo_steps=evo_steps, eval_steps=2, eval_loop=1, n_step=bool(case.get("n_step_flag", True)), per=case["per"],
                                  n_step_memory=n_mem, tournament=None, mutation=None, wb=False, verbose=False)
     finally:
         top.time = saved_time
